@@ -92,6 +92,7 @@ func c13Scenarios() []goxScenario {
 	sc := goxScenarios()
 	// file loads of 2+ rows through both loader goroutine pairs, and a correlated subquery evaluated by several workers
 	big := csvTable("a,g,b", 12, func(i int) string { return fmt.Sprintf("%d,k%d,%d", i+1, i%3, i*3%7) })
+	small := csvTable("a,g,b", 6, func(i int) string { return fmt.Sprintf("%d,k%d,%d", i+1, i%3, i*3%7) })
 	sc = append(sc,
 		goxScenario{Name: "load-csv", Files: map[string]string{"t.csv": big}, SQL: "SELECT COUNT(*) FROM t", CPU: 2},
 		goxScenario{Name: "load-jsonl", Files: map[string]string{"j.jsonl": "{\"a\":1}\n{\"a\":2}\n{\"a\":3}\n{\"a\":4}\n"}, SQL: "SELECT COUNT(*) FROM j", CPU: 2},
@@ -123,6 +124,11 @@ func c13Scenarios() []goxScenario {
 		// the parser called from every worker: a user function that EXECUTEs a text, evaluated per record
 		goxScenario{Name: "execute-in-user-function-per-row", FreeRows: 800, Files: map[string]string{"t.csv": big},
 			SQL: "DECLARE ex FUNCTION (@x) AS BEGIN VAR @r := 0; EXECUTE 'SELECT w' || @x || ' + 1 INTO @r FROM (SELECT ' || @x || ' AS w' || @x || ') AS s' || @x || ';'; RETURN @r; END; SELECT a, ex(a) FROM t;", CPU: 3},
+		// one view per group, built by the group workers from the grouped view (whose header they share), each sorted by an expression
+		goxScenario{Name: "aggregate-ordered-by-expression-per-group", FreeRows: 800, Files: map[string]string{"t.csv": small},
+			SQL: "SELECT gg, LISTAGG(b, ',') WITHIN GROUP (ORDER BY a * 2) FROM (SELECT a % 40 AS gg, a, b FROM t) s GROUP BY gg;", CPU: 3},
+		goxScenario{Name: "two-aggregates-ordered-by-different-expressions", FreeRows: 800, Files: map[string]string{"t.csv": small},
+			SQL: "SELECT g, JSON_AGG(b) WITHIN GROUP (ORDER BY a * -1), LISTAGG(b, ',') WITHIN GROUP (ORDER BY b + a), COUNT(DISTINCT b + 1) FROM t GROUP BY g;", CPU: 3},
 		goxScenario{Name: "user-function-per-row", FreeRows: 800, Files: map[string]string{"t.csv": big}, SQL: "DECLARE f FUNCTION (@x) AS BEGIN VAR @y := @x * 2; RETURN @y + 1; END; SELECT a, f(a) FROM t;", CPU: 3},
 	)
 	return sc
